@@ -64,12 +64,12 @@ def jobs_for(tier, rnd):
             if G.well_formed(c, G.RULES_NULLABLE) and not any(x[0] in ('byte', 'bt') for x in walk(c)):
                 strat.append(c)
     rnd.shuffle(strat)
-    es = d2 + strat[:400 if tier == 'quick' else len(strat)]
+    es = d2 + strat[:400 if tier == 'quick' else 2500]
     variants = [(i, w, k) for i in IGNS for w in ('before', 'after') for k in (False, True)]
     jobs, gid = [], 0
     pairs = {}
     for n, e in enumerate(es):
-        vs = variants if tier == 'thorough' else [variants[(n + j * 5) % len(variants)] for j in range(2)]
+        vs = [variants[(n + j * 5) % len(variants)] for j in range(2 if tier == 'quick' else 6)]
         for ign, where, klass in vs:
             alpha = 'ab _' if ign == 'two' else 'ab '
             TX = G.texts(alpha, 4 if (tier == 'quick' or ign == 'two') else 5, extra=(' a b ', 'a  b', 'ab  ', '  ab', ' a  a  b'))
